@@ -186,11 +186,72 @@ pub fn scripts(seed: u64) -> Vec<Script> {
             ],
         },
         Script {
+            // the options carried over from the first header decide how the second picture's vectors are
+            // read: the masks that select the carried-over bits are lazily initialised process-wide state
+            name: "standard: I sub-QCIF with unrestricted vectors switched on in OPPTYPE, P with a plain PTYPE header and vectors beyond the base range, P",
+            opts: 0,
+            calls: {
+                let mut ih = StdHdr::custom(128, 96, false, 0, 6);
+                {
+                    let p = ih.plus.as_mut().unwrap();
+                    p.opp.srcfmt = 1;
+                    p.opp.modes = 0b10_0000_0000;
+                }
+                let far = |tr: u8| -> Vec<u8> {
+                    let mut mbs = vec![Mb::inter((31, 0)), Mb::inter((10, 0)), Mb::inter((-20, 31)), Mb::inter((0, 9))];
+                    mbs.extend((4..48).map(|i| if i % 5 == 0 { Mb::inter((-31, -31)) } else { Mb::NotCoded }));
+                    encode_bytes(&Pic { hdr: Hdr::Std(StdHdr::baseline(1, true, tr, 6)), mbs })
+                };
+                vec![a(encode_bytes(&noise_intra(Hdr::Std(ih), seed ^ 15))), a(far(1)), a(far(2))]
+            },
+        },
+        Script {
             name: "sorenson: I 16x16, P 16x16 all-not-coded, I 32x16",
             opts: 1,
             calls: vec![a(encode_bytes(&noise_intra(shdr(16, 16, 0, 0, 12, 1), seed ^ 6))), a(encode_bytes(&Pic { hdr: shdr(16, 16, 1, 1, 12, 1), mbs: vec![Mb::NotCoded] })), a(encode_bytes(&noise_intra(shdr(32, 16, 0, 2, 12, 0), seed ^ 7)))],
         },
     ]
+}
+
+/// Scripts for the first-use check only (each is run alone as the first work of a fresh process and
+/// compared with the same script in a process that has decoded before): plain-PTYPE pictures with
+/// each PTYPE option bit set, after a PLUSPTYPE picture that switches nothing on and after nothing -
+/// what the option masks strip and what they carry over is decided by process-wide lazily
+/// initialised values.
+pub fn first_use_scripts(seed: u64) -> Vec<Script> {
+    let a = |v: Vec<u8>| Arc::new(v);
+    let mut v = vec![];
+    let far = |h: StdHdr| -> Vec<u8> {
+        let mut mbs = vec![Mb::inter((31, 0)), Mb::inter((10, 0)), Mb::inter((-20, 31)), Mb::inter((0, 9))];
+        mbs.extend((4..48).map(|i| if i % 5 == 0 { Mb::inter((-31, -31)) } else { Mb::NotCoded }));
+        encode_bytes(&Pic { hdr: Hdr::Std(h), mbs })
+    };
+    let names = ["UMV", "SAC", "AP", "PB"];
+    for bit in 0..4usize {
+        let with_bit = |inter: bool, tr: u8| -> StdHdr {
+            let mut h = StdHdr::baseline(1, inter, tr, 6);
+            match bit {
+                0 => h.umv = true,
+                1 => h.sac = true,
+                2 => h.ap = true,
+                _ => h.pb = true,
+            }
+            h
+        };
+        let mut ih = StdHdr::custom(128, 96, false, 0, 6);
+        ih.plus.as_mut().unwrap().opp.srcfmt = 1;
+        v.push(Script {
+            name: Box::leak(format!("first use: I sub-QCIF (PLUSPTYPE, no options), then a plain-PTYPE P picture with the {} bit set and far vectors", names[bit]).into_boxed_str()),
+            opts: 0,
+            calls: vec![a(encode_bytes(&noise_intra(Hdr::Std(ih), seed ^ 16))), a(far(with_bit(true, 1))), a(far(StdHdr::baseline(1, true, 2, 6)))],
+        });
+        v.push(Script {
+            name: Box::leak(format!("first use: plain-PTYPE I picture with the {} bit set, then a plain-PTYPE P picture with far vectors", names[bit]).into_boxed_str()),
+            opts: 0,
+            calls: vec![a(encode_bytes(&noise_intra(Hdr::Std(with_bit(false, 0)), seed ^ 17))), a(far(StdHdr::baseline(1, true, 1, 6)))],
+        });
+    }
+    v
 }
 
 /// One-picture letters for the purity sweep: intra pictures over quantizers x level classes x
@@ -514,7 +575,7 @@ pub fn child(args: &[String]) -> i32 {
     let seed: u64 = args[0].parse().unwrap_or(0);
     let ids: Vec<usize> = args[1].split(',').map(|x| x.parse().unwrap()).collect();
     let order: Vec<usize> = args[2].split(',').map(|x| x.parse().unwrap()).collect();
-    let all = scripts(seed);
+    let all = if args.get(3).map(|s| s == "first-use").unwrap_or(false) { first_use_scripts(seed) } else { scripts(seed) };
     let cfg: Vec<&Script> = ids.iter().map(|i| &all[*i]).collect();
     let obs = if args.get(3).map(|s| s == "threads").unwrap_or(false) { run_thread_per_instance(&cfg, &order) } else { run_same_thread(&cfg, &order) };
     println!("{}", serde_json::to_string(&obs).unwrap());
@@ -709,6 +770,56 @@ pub fn run(tier: Tier) -> Report {
             }
         }
     }
+    // every script alone as the very first work of a fresh process (what a lazily initialised global
+    // answers on its first use)
+    for i in 0..n {
+        let order: Vec<usize> = vec![0; all[i].calls.len()];
+        let out = std::process::Command::new(&exe).arg("det-child").arg(seed.to_string()).arg(format!("{i}")).arg(order.iter().map(|x| x.to_string()).collect::<Vec<_>>().join(",")).arg("same").output();
+        n_child += 1;
+        rep.add_transitions(order.len() as u64);
+        let parsed: Option<Vec<Vec<Obs>>> = out.ok().and_then(|o| serde_json::from_slice(&o.stdout).ok());
+        match parsed {
+            None => rep.violation("C17/child-process-failed", format!("fresh process for script {i} did not report"), json!({"kind": "det-child", "scripts": [i]})),
+            Some(obs) => {
+                if obs[0] != base[i] {
+                    let k = (0..obs[0].len().min(base[i].len())).find(|&k| obs[0][k] != base[i][k]).unwrap_or(0);
+                    rep.violation(
+                        "C17/first-use-in-a-fresh-process-differs",
+                        format!("script '{}' run as the first work of a fresh process: call {k} gives {:?}; in a process that has decoded before it gives {:?}", all[i].name, obs[0].get(k), base[i].get(k)),
+                        json!({"kind": "det-child", "scripts": [i], "rerun": format!("vcheck det-child {seed} {i} {} same   (prints the observations of the fresh process)", order.iter().map(|x| x.to_string()).collect::<Vec<_>>().join(","))}),
+                    );
+                }
+            }
+        }
+    }
+    {
+        let fu = first_use_scripts(seed);
+        let mut accepted = 0u64;
+        for (i, sc) in fu.iter().enumerate() {
+            let warm = solo(sc);
+            accepted += warm.iter().filter(|o| o.0 == "Ok").count() as u64;
+            let order: Vec<usize> = vec![0; sc.calls.len()];
+            let ord = order.iter().map(|x| x.to_string()).collect::<Vec<_>>().join(",");
+            let out = std::process::Command::new(&exe).arg("det-child").arg(seed.to_string()).arg(format!("{i}")).arg(&ord).arg("first-use").output();
+            n_child += 1;
+            rep.add_transitions(2 * order.len() as u64);
+            let parsed: Option<Vec<Vec<Obs>>> = out.ok().and_then(|o| serde_json::from_slice(&o.stdout).ok());
+            match parsed {
+                None => rep.violation("C17/child-process-failed", format!("fresh process for first-use script {i} did not report"), json!({"kind": "det-child", "first_use_script": i})),
+                Some(obs) => {
+                    if obs[0] != warm {
+                        let k = (0..obs[0].len().min(warm.len())).find(|&k| obs[0][k] != warm[k]).unwrap_or(0);
+                        rep.violation(
+                            "C17/first-use-in-a-fresh-process-differs",
+                            format!("'{}' run as the first work of a fresh process: call {k} gives {:?}; in a process that has decoded before it gives {:?}", sc.name, obs[0].get(k), warm.get(k)),
+                            json!({"kind": "det-child", "first_use_script": i, "rerun": format!("vcheck det-child {seed} {i} {ord} first-use   (prints the observations of the fresh process)")}),
+                        );
+                    }
+                }
+            }
+        }
+        rep.extra("first_use_scripts", json!({"scripts": fu.len(), "accepted_calls_in_the_warm_process": accepted}));
+    }
     // a long-lived instance next to a busy one: counters or keys shared between instances wrap
     // after 2^8 / 2^16 pictures decoded elsewhere in the process (fresh single-threaded processes)
     {
@@ -770,7 +881,7 @@ pub fn run(tier: Tier) -> Report {
     }
     rep.extra("synchronisation_inventory", inv);
     rep.set_rule(
-        "instances with their own histories (8 scripts of 3 calls: I/P/D, rejected mid-picture inputs, prediction without reference, both modes, all option sets): every interleaving (multiset permutation) of the calls of every pair and of triples of scripts, executed under an explicit scheduler on one thread and with one OS thread per instance (token passing); every instance's observations (Ok/Err, hash of picture+header after each call) must equal its solo run; every ordered pair of ~90 one-picture letters decoded back to back on one thread by two fresh decoders (single-call purity); first-initialisation order in fresh child processes; 32 fresh instances per script and 8/12 fresh instances for every history of up to 4/5 calls over a ten-letter Sorenson and an eight-letter standard-mode alphabet (accepted, rejected and cut I/P/D pictures, colliding temporal references, a second size) - the histories are enumerated, the hash seeds of the instances are sampled; free-running threads (sampling); non-trivial = every interleaving (two or more instances)",
+        "instances with their own histories (8 scripts of 3 calls: I/P/D, rejected mid-picture inputs, prediction without reference, both modes, all option sets): every interleaving (multiset permutation) of the calls of every pair and of triples of scripts, executed under an explicit scheduler on one thread and with one OS thread per instance (token passing); every instance's observations (Ok/Err, hash of picture+header after each call) must equal its solo run; every ordered pair of ~90 one-picture letters decoded back to back on one thread by two fresh decoders (single-call purity); first-initialisation order in fresh child processes (every ordered pair of scripts alternating, and every script alone as the first work of a process, plus eight first-use scripts: plain-PTYPE pictures with each PTYPE option bit set, after a PLUSPTYPE picture and after nothing); 32 fresh instances per script and 8/12 fresh instances for every history of up to 4/5 calls over a ten-letter Sorenson and an eight-letter standard-mode alphabet (accepted, rejected and cut I/P/D pictures, colliding temporal references, a second size) - the histories are enumerated, the hash seeds of the instances are sampled; free-running threads (sampling); non-trivial = every interleaving (two or more instances)",
     );
     rep.assume("the crates contain no lock, atomic, channel, unsafe or static mut (inventory in the evidence), so a call on one instance has no scheduling point visible to a controlled scheduler: interleavings are explored at call granularity");
     rep
